@@ -101,3 +101,135 @@ Example C16_example_collected :
   exists s, run_safe init ex2 = Some s /\ quiescent s /\
     s_root s 11 = None /\ s_root s 21 = None /\ s_inch s 1 = false /\ s_log s = [11; 21; 11; 21].
 Proof. exact example_collected. Qed.
+
+(* ================================================================================================
+   Get-or-create under double-checked locking (strengthening T16).
+
+   Model/PeerBook.v treats RootPeerList.Add / GetOrAdd as ONE atomic get-or-create.  The code
+   looks the host:port up under the read lock, and AGAIN under the write lock before it creates
+   and stores a Peer; PeerList.Add does the same around it.  Model/PeerGoc.v has one step per
+   lock-protected region (two per RootPeerList.Add), objects are allocation names, any number of
+   goroutines / host:ports / peer lists, every interleaving = every label list.  The regions are
+   regenerated from the Go source on every run (Gen/GenPeerGoc.v, Gen/GenLockSkel.v). *)
+From Verif Require Import Base.GoMap Gen.GenPeerGoc Gen.GenLockSkel Model.PeerGoc
+  Proofs.PeerGocP Proofs.PeerGocGenP.
+
+(* TIE: each region of RootPeerList.Get / Add / GetOrAdd and PeerList.exists / Add / Remove /
+   GetOrAdd as translated from the source equals the decision of the model's step: which object
+   is returned on each branch, what is stored under which key, on which object the reference is
+   counted / dropped. *)
+Theorem C16_goc_generated :
+  (forall m hp, (rootGetVal m hp, rootGetOk m hp) = match m hp with Some q => (q, true) | None => (0, false) end) /\
+  (forall m hp, rootAddFast m hp = m hp) /\
+  (forall s hp, rootAddSlow (g_root s) hp (g_next s) = (g_root (fst (g_root_insert s hp)), snd (g_root_insert s hp))) /\
+  (forall m hp, rootGetOrAdd m hp = match m hp with Some q => (q, false) | None => (hp, true) end) /\
+  (forall l lid hp, listAddFast (lview l lid) hp = list_find l lid hp) /\
+  (forall l lid hp, listAddRecheck (lview l lid) hp = list_find l lid hp) /\
+  (forall l sc lid hp q,
+     let '(m', sc', r) := listAddTail (lview l lid) sc hp q in
+     r = q /\ sc' = sc_add sc q 1 /\ (forall x, m' x = lview ((lid, hp, q) :: l) lid x) /\
+     (forall lid' x, lid' <> lid -> lview ((lid, hp, q) :: l) lid' x = lview l lid' x)) /\
+  (forall l sc lid hp, gkeys_nodup l ->
+     let '(m', sc', ok) := listRemove (lview l lid) sc hp in
+     match list_find l lid hp with
+     | None => ok = false /\ sc' = sc /\ m' = lview l lid
+     | Some q => ok = true /\ sc' = sc_add sc q (-1) /\
+                 (forall x, m' x = lview (list_del l lid hp) lid x) /\
+                 (forall lid' x, lid' <> lid -> lview (list_del l lid hp) lid' x = lview l lid' x)
+     end) /\
+  (forall hp, listGetOrAddArg hp = hp).
+Proof. exact goc_generated. Qed.
+Print Assumptions C16_goc_generated.
+
+(* TIE: the lock / return structure of those functions in the source is the region structure the
+   model's steps were read from (codes: Gen/GenLockSkel.v). *)
+Theorem C16_goc_regions :
+  skel_rootAdd = [1; 8; 2; 7; 9; 2; 3; 5; 8; 7; 9; 11; 11; 11; 7] /\
+  skel_rootGet = [1; 11; 2; 7] /\
+  skel_rootGetOrAdd = [11; 8; 7; 9; 7] /\
+  skel_listAdd = [8; 7; 9; 3; 5; 8; 7; 9; 11; 11; 11; 11; 11; 7] /\
+  skel_listExists = [1; 11; 2; 7] /\
+  skel_listRemove = [3; 5; 11; 8; 7; 9; 11; 11; 11; 7] /\
+  skel_listGetOrAdd = [7].
+Proof. exact goc_skeletons. Qed.
+Print Assumptions C16_goc_regions.
+
+(* TIE: RootPeerList.onClosedConnRemoved(peer) as translated from the source tests the
+   removability of the object STORED under peer.HostPort() and deletes by that host:port: run
+   without interleaving it is the three collector steps PCol1, PCol2, PCol3 of Model/PeerBook.v;
+   its lock skeleton is Get; if !ok {return}; if canRemove {Lock; delete; Unlock; log}. *)
+Theorem C16_goc_collector_generated :
+  (forall (s : PeerBook.st) hp,
+     rootCollect (s_root s) (fun q => can_remove (s_peer s q)) hp =
+     match s_root s hp with
+     | None => s_root s
+     | Some q => if can_remove (s_peer s q) then s_root (set_root s hp None) else s_root s
+     end) /\
+  skel_rootCollect = [11; 11; 8; 7; 9; 8; 3; 11; 4; 11; 9].
+Proof. exact goc_collector_generated. Qed.
+Print Assumptions C16_goc_collector_generated.
+
+(* For EVERY interleaving of any number of concurrent RootPeers().Get / GetOrAdd / Add and
+   PeerList.Add / Remove on the same and on different host:ports, in every reachable state: all
+   calls that asked for host:port hp and returned an object returned THE SAME object, and it is
+   the one stored in the root map under hp. *)
+Theorem C16_goc_same_object : forall ls s,
+  grun ginit ls = Some s ->
+  forall t1 t2 hp c1 c2 q1 q2,
+    In (t1, hp, c1, q1) (g_ret s) -> In (t2, hp, c2, q2) (g_ret s) -> q1 <> 0 -> q2 <> 0 ->
+    q1 = q2 /\ g_root s hp = Some q1.
+Proof. exact goc_same_object. Qed.
+Print Assumptions C16_goc_same_object.
+
+(* No private objects: every Peer object ever created is the one registered in the root map
+   under the host:port it was created for; one object per host:port. *)
+Theorem C16_goc_no_private_object : forall ls s,
+  grun ginit ls = Some s ->
+  forall q, 0 < q < g_next s -> g_root s (g_hp s q) = Some q.
+Proof. exact goc_no_private_object. Qed.
+Print Assumptions C16_goc_no_private_object.
+
+Theorem C16_goc_root_injective : forall ls s,
+  grun ginit ls = Some s ->
+  forall hp1 hp2 q, g_root s hp1 = Some q -> g_root s hp2 = Some q -> hp1 = hp2.
+Proof. exact goc_root_injective. Qed.
+Print Assumptions C16_goc_root_injective.
+
+(* Every peer-list entry holds the root list's object for its host:port, and so does every
+   PeerList.Add that is about to count its reference (between l.parent.Add and p.addSC()). *)
+Theorem C16_goc_lists_share_root : forall ls s,
+  grun ginit ls = Some s ->
+  (forall lid hp q, list_find (g_lists s) lid hp = Some q -> g_root s hp = Some q) /\
+  (forall t lid hp q, g_thr s t = Some (GLAdd5 lid hp q) -> g_root s hp = Some q).
+Proof. exact goc_lists_share_root. Qed.
+Print Assumptions C16_goc_lists_share_root.
+
+(* Reference counts are kept on the stored objects: scCount of every object is the number of
+   peer-list entries holding it (entries have distinct (list, host:port) keys: the list's write
+   lock excludes a second insertion). *)
+Theorem C16_goc_refcount : forall ls s,
+  grun ginit ls = Some s ->
+  (forall q, g_sc s q = gents q (g_lists s)) /\ gkeys_nodup (g_lists s).
+Proof. exact goc_refcount. Qed.
+Print Assumptions C16_goc_refcount.
+
+(* What the re-check buys: with a region 2 that inserts if absent but returns its own new object
+   either way, two RootPeerList.Add(7) that both missed under the read lock end with different
+   objects, the second one registered nowhere. *)
+Theorem C16_goc_private_variant_refuted :
+  exists s0 s1 s2 q1 q2,
+    s0 = gset_thr (gset_thr ginit 1 (Some (GRAdd2 7))) 2 (Some (GRAdd2 7)) /\
+    g_root_insert_private s0 7 = (s1, q1) /\ g_root_insert_private s1 7 = (s2, q2) /\
+    q1 <> q2 /\ g_root s2 7 = Some q1 /\ g_root s2 (g_hp s2 q2) <> Some q2.
+Proof. exact goc_private_variant_refuted. Qed.
+Print Assumptions C16_goc_private_variant_refuted.
+
+(* Non-vacuity: channel list, isolated list and RootPeers().Add race a first-time Add of
+   host:port 7; all three miss under the read lock before any takes the write lock; all three
+   return object 1, which has two references. *)
+Example C16_goc_example_race :
+  exists s, grun ginit goc_ex_race = Some s /\
+    g_ret s = [(3, 7, 1, 1); (1, 7, 1, 1); (2, 7, 1, 1)] /\
+    g_root s 7 = Some 1 /\ g_sc s 1 = 2 /\ g_next s = 2 /\
+    g_lists s = [(1, 7, 1); (0, 7, 1)].
+Proof. exact goc_example_race. Qed.
